@@ -32,6 +32,7 @@ type Reporter struct {
 	MaxPerSg int
 	evals    int64
 	viols    int64
+	violIdx  map[int]bool
 }
 
 func Open(base string) (*Reporter, error) {
@@ -93,6 +94,18 @@ func (r *Reporter) Violation(idx int, clause, sig, detail string, cas any) {
 	r.mu.Lock()
 	defer r.mu.Unlock()
 	r.viols++
+	if r.violIdx == nil {
+		r.violIdx = map[int]bool{}
+	}
+	if !r.violIdx[idx] {
+		// a case that reached an oracle and failed it is a distinct non-trivial case of this run (counted once per case)
+		r.violIdx[idx] = true
+		var b [8]byte
+		h := fnv.New64a()
+		fmt.Fprintf(h, "violating-case\x00%d", idx)
+		binary.LittleEndian.PutUint64(b[:], h.Sum64())
+		r.nt.Write(b[:])
+	}
 	r.perSig[sig]++
 	r.stats["violations."+sig]++
 	if r.perSig[sig] > r.MaxPerSg {
